@@ -2,16 +2,19 @@
 package main
 
 import (
+	"bufio"
 	"context"
 	"errors"
 	"fmt"
 	"os"
+	"os/exec"
 	"path/filepath"
 	"sort"
 	"strconv"
 	"strings"
 	"sync"
 	"sync/atomic"
+	"syscall"
 	"time"
 
 	"github.com/pinealctx/neptune/cache"
@@ -34,6 +37,10 @@ func main() {
 		extract(os.Args[2], os.Args[3])
 	case "corr":
 		corr.Main(spec(), os.Args[2:])
+	case "stress":
+		os.Exit(stressChild(os.Args[2:]))
+	case "worker":
+		workerMain()
 	default:
 		os.Exit(2)
 	}
@@ -328,6 +335,22 @@ func parseOp(f []string) (op, bool) {
 	case f[0] == "fget" && len(f) == 2:
 		o.key = f[1]
 		return o, parseKey(f[1])
+	case f[0] == "stress" && len(f) == 7:
+		if f[1] != "mem" && f[1] != "rds" {
+			return o, false
+		}
+		lim := []int64{0, 0, 64, 1 << 40, 32, 5000, 16}
+		for i := 2; i < 7; i++ {
+			if !isNat(f[i]) {
+				return o, false
+			}
+			n, _ := strconv.ParseInt(f[i], 10, 64)
+			if n > lim[i] || (i >= 4 && n < 1) {
+				return o, false
+			}
+		}
+		o.key = strings.Join(f[1:], " ")
+		return o, true
 	case f[0] == "del" && len(f) == 2:
 		o.key = f[1]
 		return o, parseKey(f[1])
@@ -440,8 +463,15 @@ func guarded(f func() string) (out string) {
 	}
 }
 
-func runCase(c corr.Case) corr.Result {
+// runCaseLocal executes a script in this process; `stream`, if not nil, sees every result line as soon as it exists.
+func runCaseLocal(c corr.Case, stream func(string)) corr.Result {
 	var res corr.Result
+	emit := func(o string) {
+		res.Outs = append(res.Outs, o)
+		if stream != nil {
+			stream(o)
+		}
+	}
 	var w *world
 	defer func() {
 		if w != nil {
@@ -460,7 +490,7 @@ func runCase(c corr.Case) corr.Result {
 				size, _ := strconv.Atoi(f[2])
 				clock, _ := strconv.ParseInt(f[4], 10, 64)
 				w = newWorld(f[1], size, dttl, clock)
-				res.Outs = append(res.Outs, "ok")
+				emit("ok")
 				continue
 			}
 			// an ill-formed `new` line still starts a new script: nothing is running afterwards
@@ -469,7 +499,7 @@ func runCase(c corr.Case) corr.Result {
 				w.close()
 				w = nil
 			}
-			res.Outs = append(res.Outs, "bad-op")
+			emit("bad-op")
 			continue
 		}
 		if len(f) > 0 && f[0] == "new" {
@@ -478,27 +508,35 @@ func runCase(c corr.Case) corr.Result {
 				w.close()
 				w = nil
 			}
-			res.Outs = append(res.Outs, "bad-op")
+			emit("bad-op")
 			continue
 		}
 		o, ok := parseOp(f)
 		if !ok || w == nil {
-			res.Outs = append(res.Outs, "bad-op")
+			emit("bad-op")
 			continue
 		}
 		if o.kind == "tick" {
 			atomic.AddInt64(&w.clock, o.n)
 			w.mon.tick()
 			if w.mode == "both" {
-				res.Outs = append(res.Outs, "ok ok")
+				emit("ok ok")
 			} else {
-				res.Outs = append(res.Outs, "ok")
+				emit("ok")
 			}
+			continue
+		}
+		if o.kind == "stress" {
+			out, hit := runStress(strings.Fields(o.key))
+			if hit != nil {
+				res.Hits = append(res.Hits, *hit)
+			}
+			emit(out)
 			continue
 		}
 		if o.kind == "fset" || o.kind == "fget" {
 			if w.mode == "mem" {
-				res.Outs = append(res.Outs, "bad-op")
+				emit("bad-op")
 				continue
 			}
 			fo := guarded(func() string {
@@ -508,7 +546,7 @@ func runCase(c corr.Case) corr.Result {
 				return showGet(w.frg.Get(ctx, canonKey(o.key)))
 			})
 			res.Hits = append(res.Hits, w.mon.foreign(o, fo)...)
-			res.Outs = append(res.Outs, fo)
+			emit(fo)
 			continue
 		}
 		var mo, ro string
@@ -521,17 +559,344 @@ func runCase(c corr.Case) corr.Result {
 		res.Hits = append(res.Hits, w.mon.observe(o, mo, ro)...)
 		switch w.mode {
 		case "mem":
-			res.Outs = append(res.Outs, mo)
+			emit(mo)
 		case "rds":
-			res.Outs = append(res.Outs, ro)
+			emit(ro)
 		default:
-			res.Outs = append(res.Outs, mo+" "+ro)
+			emit(mo + " " + ro)
 		}
 	}
 	if w != nil {
 		res.Hits = append(res.Hits, w.mon.finish()...)
 	}
 	return res
+}
+
+// ---- scripts with racing callers (`race` lines) run in a persistent worker process: if the cache aborts the runtime
+// under concurrent callers ("fatal error: concurrent map read and map write", a corrupted list) the worker dies, the
+// parent reports the script as a finding (`C05:concurrency:crash`) and starts a new worker.
+
+type workerProc struct {
+	cmd    *exec.Cmd
+	in     *bufio.Writer
+	out    *bufio.Reader
+	stderr *strings.Builder
+}
+
+var worker *workerProc
+
+func startWorker() *workerProc {
+	cmd := exec.Command(os.Args[0], "worker")
+	stdin, err1 := cmd.StdinPipe()
+	stdout, err2 := cmd.StdoutPipe()
+	errb := &strings.Builder{}
+	cmd.Stderr = errb
+	if err1 != nil || err2 != nil || cmd.Start() != nil {
+		fmt.Fprintln(os.Stderr, "c05: cannot start the worker process")
+		os.Exit(2)
+	}
+	return &workerProc{cmd: cmd, in: bufio.NewWriter(stdin), out: bufio.NewReaderSize(stdout, 1<<20), stderr: errb}
+}
+
+func hasRace(c corr.Case) bool {
+	for _, l := range c.Lines {
+		if strings.HasPrefix(l, "race ") {
+			return true
+		}
+	}
+	return false
+}
+
+func runCase(c corr.Case) corr.Result {
+	if !hasRace(c) || os.Getenv("C05_INPROCESS") != "" {
+		return runCaseLocal(c, nil)
+	}
+	if worker == nil {
+		worker = startWorker()
+	}
+	w := worker
+	fmt.Fprintf(w.in, "CASE %d\n", len(c.Lines))
+	for _, l := range c.Lines {
+		fmt.Fprintln(w.in, strings.ReplaceAll(l, "\n", " "))
+	}
+	_ = w.in.Flush()
+	var res corr.Result
+	for {
+		line, err := w.out.ReadString('\n')
+		if err != nil {
+			break // worker died
+		}
+		line = strings.TrimRight(line, "\n")
+		switch {
+		case strings.HasPrefix(line, "OUT "):
+			res.Outs = append(res.Outs, line[4:])
+		case strings.HasPrefix(line, "HIT "):
+			if kv := strings.SplitN(line[4:], "\t", 2); len(kv) == 2 {
+				res.Hits = append(res.Hits, corr.Hit{Key: kv[0], What: kv[1]})
+			}
+		case line == "END":
+			return res
+		}
+	}
+	_ = w.cmd.Wait()
+	worker = nil
+	first := ""
+	for _, l := range strings.Split(w.stderr.String(), "\n") {
+		if strings.HasPrefix(l, "fatal error:") || strings.HasPrefix(l, "panic:") || strings.HasPrefix(l, "unexpected fault") || strings.HasPrefix(l, "[signal") {
+			first = l
+			break
+		}
+	}
+	if first == "" || strings.Contains(w.stderr.String(), "c05: watchdog") {
+		fmt.Fprintln(os.Stderr, "c05: worker process died without a Go runtime abort:", w.stderr.String())
+		os.Exit(2)
+	}
+	crashed := len(res.Outs)
+	for i := crashed; i < len(c.Lines); i++ {
+		if i == crashed {
+			res.Outs = append(res.Outs, "crash")
+		} else {
+			res.Outs = append(res.Outs, "not-run")
+		}
+	}
+	at := ""
+	if crashed < len(c.Lines) {
+		at = c.Lines[crashed]
+	}
+	res.Hits = append(res.Hits, corr.Hit{Key: "C05:concurrency:crash", What: fmt.Sprintf("the process was aborted by the Go runtime while executing `%s` (concurrent callers on one cache): %s", at, first)})
+	return res
+}
+
+// workerMain: `c05 worker` — runs scripts received on stdin, streaming the result lines.
+func workerMain() {
+	in := bufio.NewReaderSize(os.Stdin, 1<<20)
+	out := bufio.NewWriter(os.Stdout)
+	for {
+		h, err := in.ReadString('\n')
+		if err != nil {
+			return
+		}
+		var n int
+		if _, err := fmt.Sscanf(h, "CASE %d", &n); err != nil {
+			return
+		}
+		var c corr.Case
+		for i := 0; i < n; i++ {
+			l, err := in.ReadString('\n')
+			if err != nil {
+				return
+			}
+			c.Lines = append(c.Lines, strings.TrimRight(l, "\n"))
+		}
+		res := runCaseLocal(c, func(o string) { fmt.Fprintln(out, "OUT "+o); _ = out.Flush() })
+		for _, hit := range res.Hits {
+			fmt.Fprintln(out, "HIT "+hit.Key+"\t"+strings.ReplaceAll(hit.What, "\n", " "))
+		}
+		fmt.Fprintln(out, "END")
+		_ = out.Flush()
+	}
+}
+
+// ---------------------------------------------------------------- racing callers, in a child process
+//
+// `stress <mem|rds> <size> <seed> <goroutines> <opsEach> <keys>`: N goroutines issue Set / Set-if-absent / Get (plain,
+// consuming, update-ttl) / Remove on a few keys of ONE cache concurrently, in a child process, so that an
+// unrecoverable runtime abort ("fatal error: concurrent map writes", a corrupted list) becomes a finding with this
+// script as replay instead of killing the harness. Checked on the results only (P): every value a Get returns was
+// really passed to a Set of that key that had started; a value is consumed by at most one remove-after-get read; at
+// the end at most `size` keys are retrievable (in-memory). Values are unique per call (goroutine*1e6 + index).
+
+type sop struct {
+	kind string // set setnx get getrm getupd del
+	key  string
+	val  int64
+}
+
+func stressOps(seed uint64, g, n, nk int) [][]sop {
+	root := rng.New(seed)
+	all := make([][]sop, g)
+	for gi := 0; gi < g; gi++ {
+		r := root.Fork(uint64(gi))
+		for i := 0; i < n; i++ {
+			o := sop{key: "k" + strconv.Itoa(r.Intn(nk)), val: int64(gi)*1000000 + int64(i)}
+			switch x := r.Intn(12); {
+			case x < 4:
+				o.kind = "set"
+			case x < 5:
+				o.kind = "setnx"
+			case x < 8:
+				o.kind = "get"
+			case x < 10:
+				o.kind = "getrm"
+			case x < 11:
+				o.kind = "getupd"
+			default:
+				o.kind = "del"
+			}
+			all[gi] = append(all[gi], o)
+		}
+	}
+	return all
+}
+
+// stressChild runs in the child process; prints `stress-ok` or `stress-bad <what>: <detail>`.
+func stressChild(a []string) int {
+	if len(a) != 6 {
+		return 2
+	}
+	num := func(s string) int { n, _ := strconv.Atoi(s); return n }
+	backend, size, g, n, nk := a[0], num(a[1]), num(a[3]), num(a[4]), num(a[5])
+	seed, _ := strconv.ParseUint(a[2], 10, 64)
+	ops := stressOps(seed, g, n, nk)
+	restore := cache.VerifSetNow(func() int64 { return 1700000000 })
+	defer restore()
+	var c cache.TTLCache
+	if backend == "mem" {
+		c = cache.NewTTLMemCache(size, 0)
+	} else {
+		fk := c05fake.New(func() int64 { return 1700000000000 })
+		cl := fk.Client()
+		defer cl.Close()
+		c = cache.NewTTLRdsCache(cl, "p:", 0)
+	}
+	progress := make([]int64, g)
+	for i := range progress {
+		progress[i] = -1
+	}
+	var mu sync.Mutex
+	bad := ""
+	report := func(what, detail string) {
+		mu.Lock()
+		if bad == "" {
+			bad = what + ": " + detail
+		}
+		mu.Unlock()
+	}
+	valid := func(key string, v []byte) bool {
+		x, err := strconv.ParseInt(string(v), 10, 64)
+		if err != nil || x < 0 {
+			return false
+		}
+		gi, i := int(x/1000000), int(x%1000000)
+		if gi >= g || i >= n {
+			return false
+		}
+		o := ops[gi][i]
+		return (o.kind == "set" || o.kind == "setnx") && o.key == key && o.val == x && atomic.LoadInt64(&progress[gi]) >= int64(i)
+	}
+	consumed := map[string]bool{}
+	var wg sync.WaitGroup
+	start := make(chan struct{})
+	for gi := 0; gi < g; gi++ {
+		wg.Add(1)
+		go func(gi int) {
+			defer wg.Done()
+			<-start
+			for i, o := range ops[gi] {
+				atomic.StoreInt64(&progress[gi], int64(i))
+				var v []byte
+				var err error
+				switch o.kind {
+				case "set":
+					_ = c.Set(ctx, o.key, []byte(strconv.FormatInt(o.val, 10)))
+				case "setnx":
+					_ = c.Set(ctx, o.key, []byte(strconv.FormatInt(o.val, 10)), cache.WithMustNotExist(), cache.WithTTL(50))
+				case "get":
+					v, err = c.Get(ctx, o.key)
+				case "getrm":
+					v, err = c.Get(ctx, o.key, cache.WithRemoveAfterGet())
+				case "getupd":
+					v, err = c.Get(ctx, o.key, cache.WithUpdateTTL(70))
+				case "del":
+					_ = c.Remove(ctx, o.key)
+				}
+				if strings.HasPrefix(o.kind, "get") && err == nil {
+					if !valid(o.key, v) {
+						report("value-never-set", fmt.Sprintf("Get %s returned %q, which no started Set of that key stored", o.key, v))
+					}
+					if o.kind == "getrm" {
+						mu.Lock()
+						if consumed[string(v)] {
+							mu.Unlock()
+							report("consumed-more-than-once", fmt.Sprintf("value %s of %s was returned by two remove-after-get reads", v, o.key))
+						} else {
+							consumed[string(v)] = true
+							mu.Unlock()
+						}
+					}
+				}
+			}
+		}(gi)
+	}
+	close(start)
+	wg.Wait()
+	hits := 0
+	for k := 0; k < nk; k++ {
+		key := "k" + strconv.Itoa(k)
+		if v, err := c.Get(ctx, key); err == nil {
+			hits++
+			if !valid(key, v) {
+				report("value-never-set", fmt.Sprintf("final Get %s returned %q, which no Set of that key stored", key, v))
+			}
+		}
+	}
+	if backend == "mem" && hits > size {
+		report("more-than-size-retrievable", fmt.Sprintf("size=%d but %d keys retrievable after the racing callers finished", size, hits))
+	}
+	if bad != "" {
+		fmt.Println("stress-bad " + bad)
+		return 0
+	}
+	fmt.Println("stress-ok")
+	return 0
+}
+
+// runStress runs the child and maps its fate to a result line and, if the property is broken, a monitor hit.
+func runStress(args []string) (string, *corr.Hit) {
+	cmd := exec.Command(os.Args[0], append([]string{"stress"}, args...)...)
+	var out, errb strings.Builder
+	cmd.Stdout, cmd.Stderr = &out, &errb
+	cmd.SysProcAttr = &syscall.SysProcAttr{Setpgid: true}
+	if err := cmd.Start(); err != nil {
+		fmt.Fprintln(os.Stderr, "c05: cannot start the stress child:", err)
+		os.Exit(2)
+	}
+	done := make(chan error, 1)
+	go func() { done <- cmd.Wait() }()
+	var err error
+	select {
+	case err = <-done:
+	case <-time.After(180 * time.Second):
+		_ = cmd.Process.Kill()
+		fmt.Fprintln(os.Stderr, "c05: stress child did not finish within 180 s — harness error")
+		os.Exit(2)
+	}
+	line := strings.TrimSpace(out.String())
+	switch {
+	case err == nil && line == "stress-ok":
+		return "stress-ok", nil
+	case err == nil && strings.HasPrefix(line, "stress-bad "):
+		rest := strings.TrimPrefix(line, "stress-bad ")
+		what := rest
+		if i := strings.Index(rest, ":"); i > 0 {
+			what = rest[:i]
+		}
+		return "stress-bad", &corr.Hit{Key: "C05:concurrency:" + what, What: "racing callers (" + strings.Join(args, " ") + "): " + rest}
+	}
+	// the child died: runtime abort or panic inside the cache under concurrent callers
+	msg := errb.String()
+	first := ""
+	for _, l := range strings.Split(msg, "\n") {
+		if strings.HasPrefix(l, "fatal error:") || strings.HasPrefix(l, "panic:") {
+			first = l
+			break
+		}
+	}
+	if first == "" {
+		fmt.Fprintln(os.Stderr, "c05: stress child failed without a Go runtime abort:", err, msg)
+		os.Exit(2)
+	}
+	return "stress-crash", &corr.Hit{Key: "C05:concurrency:crash", What: "racing callers (" + strings.Join(args, " ") + ") aborted the process: " + first}
 }
 
 // ---------------------------------------------------------------- property monitors
@@ -1259,9 +1624,22 @@ func genClearMany(r *rng.R) corr.Case {
 	return corr.Case{Tag: "clear-many-" + mode, Lines: g.lines}
 }
 
+// racing callers on one cache (child process)
+func genStress(r *rng.R) corr.Case {
+	backend := r.Pick("mem", "mem", "mem", "rds")
+	n := r.PickInt(200, 400, 1000)
+	if backend == "rds" {
+		n = r.PickInt(50, 100)
+	}
+	return corr.Case{Tag: "stress-" + backend, Lines: []string{
+		fmt.Sprintf("new mem 2 0 %d", clock0),
+		fmt.Sprintf("stress %s %d %d %d %d %d", backend, r.Range(0, 4), r.Intn(1000000), r.PickInt(2, 4, 8, 16), n, r.Range(1, 6)),
+	}}
+}
+
 func genMalformed(r *rng.R) corr.Case {
 	junk := []string{"", "set", "set k1", "set k1 x - 0 0", "set 1 2 - 0 0", "set k1 2 - 2 0", "get k1", "get k1 2 -", "get k1 0 x", "tick -5", "tick x",
-		"race k1 0", "race k1", "fset k1", "fget", "fset k1 x", "fget 3", "del", "del 5", "clear now", "new mem 1", "new foo 1 0 5", "new mem -1 0 5", "new mem 1 - 5", "SET k1 1 - 0 0", "set k1 1 -- 0 0", "set k1 1 + 0 0", "get k1 0 1e3"}
+		"race k1 0", "race k1", "fset k1", "fget", "fset k1 x", "fget 3", "stress mem 2 1 0 10 2", "stress foo 2 1 2 10 2", "stress mem 2 1 2 10", "stress mem 99 1 2 10 2", "del", "del 5", "clear now", "new mem 1", "new foo 1 0 5", "new mem -1 0 5", "new mem 1 - 5", "SET k1 1 - 0 0", "set k1 1 -- 0 0", "set k1 1 + 0 0", "get k1 0 1e3"}
 	lines := []string{r.Pick("new mem 2 0 1700000000000", "new both 2 3 1700000000000", "new", "new mem x 0 5", "new rds 1 1 1 1")}
 	for i := 0; i < r.Range(3, 10); i++ {
 		if r.Chance(1, 2) {
@@ -1289,6 +1667,8 @@ func fixedCases() []corr.Case {
 	c := func(tag string, lines ...string) corr.Case { return corr.Case{Tag: tag, Lines: lines} }
 	return []corr.Case{
 		// Clear with more keys than one SCAN page (default COUNT 10), one key of another prefix before / after them
+		c("stress-mem-fixed", "new mem 2 0 1700000000000", "stress mem 2 7 8 1000 3", "stress mem 0 8 8 300 2"),
+		c("stress-rds-fixed", "new mem 2 0 1700000000000", "stress rds 2 9 6 100 2"),
 		c("boundary-clear-40-keys", clearManyFixed(40, 1700000000001)...),
 		c("boundary-clear-11-keys", clearManyFixed(11, 1700000000000)...),
 		c("boundary-clear-10-keys", clearManyFixed(10, 1700000000000)...),
@@ -1321,7 +1701,7 @@ func spec() corr.Spec {
 		Count: func(tier string) int {
 			switch tier {
 			case "quick":
-				return 6000
+				return 5000
 			case "thorough":
 				return 60000
 			}
@@ -1348,6 +1728,9 @@ func spec() corr.Spec {
 			case x < 19:
 				return genClearMany(r)
 			}
+			if r.Chance(1, 5) {
+				return genStress(r)
+			}
 			return genMalformed(r)
 		},
 		Run: runCase,
@@ -1363,11 +1746,13 @@ func spec() corr.Spec {
 			}
 			return sets >= 1 && hits >= 1
 		},
-		Rule: "seeded scripts over Set(ttl|default, must-not-exist, keep-ttl) / Get(plain, remove-after-get, update-ttl) / Remove / Clear / clock advances (sub-second, on, before and after deadlines) / n concurrent remove-after-get readers; classes: wild-mem, wild-rds, wild-both (any ttl sign, sizes 0..4, default ttl <=0 and >0), admissible-both (the comparison domain of the property), bound-mem (more keys than size, then a probe of all keys), clear-many (11..60 live keys + 0..25 keys of another prefix on the same redis, Clear, Get of every key on both back-ends, other-prefix keys still there; the fake pages SCAN like redis), malformed; a case is non-trivial when >= 1 Set succeeded and >= 1 Get hit; distinct = distinct script text",
+		Rule: "seeded scripts over Set(ttl|default, must-not-exist, keep-ttl) / Get(plain, remove-after-get, update-ttl) / Remove / Clear / clock advances (sub-second, on, before and after deadlines) / n concurrent remove-after-get readers; classes: wild-mem, wild-rds, wild-both (any ttl sign, sizes 0..4, default ttl <=0 and >0), admissible-both (the comparison domain of the property), bound-mem (more keys than size, then a probe of all keys), deadline-boundary-mem (Set at reading t with ttl d, noise that must not move the deadline, Gets at readings t+d-1 / t+d (hit) / t+d+1 (miss)), stress-mem / stress-rds (2..16 goroutines racing Set/Set-if-absent/Get/consuming Get/update-ttl Get/Remove on 1..6 keys in a child process), clear-many (11..60 live keys + 0..25 keys of another prefix on the same redis, Clear, Get of every key on both back-ends, other-prefix keys still there; the fake pages SCAN like redis), malformed; a case is non-trivial when >= 1 Set succeeded and >= 1 Get hit; distinct = distinct script text",
 		Assumptions: []string{
 			"redis behaves as the in-process RESP fake (go/lib/c05fake) and the Lean `Rds` model say: SET [PX|EX|KEEPTTL] [NX], SETNX, GET, GETDEL, EXPIRE, multi-key DEL, cursor-paged SCAN MATCH/COUNT (default 10 keys examined per call, short and empty pages, cursor 0 ends; keys present throughout are returned); expired when now > when; lazy expiry",
 			"a real go-redis v9 client is used, so its duration formatting (usePrecise/formatMs/formatSec) is exercised, not assumed",
-			"clock + ttl stays inside int64 (ttl magnitudes up to 2e9 are generated)",
+			"ttl is a number of seconds inside the range of time.Duration (|ttl| < 9.2e9 s) and clock + ttl stays inside int64 (ttl magnitudes up to 2e9 are generated); beyond that `now()+ttl` and `time.Duration(ttl)*time.Second` wrap — outside the property ('positive ttl')",
+			"values are compared by content at call time; aliasing of the caller's / the returned []byte with the in-memory cache's storage is not claimed by the property and not exercised",
+			"scripts with racing callers run in a worker / child process; a Go runtime abort there is reported as C05:concurrency:crash with the script as replay; real time never decides a result (client timeouts 60 s, a 120 s watchdog is a harness error)",
 			"concurrent callers: each public call of the in-memory cache is one critical section (lock facts regenerated: Lock + defer Unlock first in Set/Get/Remove/Clear)",
 		},
 		Trusted: []string{"go/lib/c05fake (redis semantics as written)", "container/list (modelled: PushFront, MoveToFront, Remove, Back, Len, Init)"},
